@@ -40,8 +40,8 @@ EXTENDS Names
 (*                    string, text with backslash escapes); with `sz': the     *)
 (*                    length is given by the earlier integer field named sz    *)
 (*  b32               like hex+sz, Go spells it in base32hex (NSEC3 next hash) *)
-(*  bitmap            RFC 4034 s.4.1.2 window blocks; value = strictly         *)
-(*                    increasing sequence of type codes                        *)
+(*  bitmap            RFC 4034 s.4.1.2 window blocks; value = duplicate-free     *)
+(*                    sequence of type codes in ANY order (it denotes a set)   *)
 (*  bitmap0           RFC 2535 s.5.2 flat bitmap (NXT); types < 128            *)
 (*  names             names up to the end of RDATA (HIP rendezvous servers)    *)
 (*  apl               RFC 3123 items [fam, neg, prefix, addr]                  *)
@@ -56,7 +56,8 @@ EXTENDS Names
 (*  u16opt            <<>> (absent) or <<v>> (TCP keepalive TIMEOUT)           *)
 (*  prefixaddr        full-length address, only the first ceil(f[sz]/8) octets *)
 (*                    travel (RFC 7871 s.6)                                    *)
-(*  u16list           sequence of u16 (SVCB mandatory)                         *)
+(*  u16list           duplicate-free sequence of u16 in ANY order, sent          *)
+(*                    in increasing order (SVCB mandatory)                     *)
 (*  lstrs             sequence of 1..255-octet strings, each length-prefixed   *)
 (*  alist aaaalist    sequence of 4- / 16-octet addresses                      *)
 
@@ -235,6 +236,7 @@ SortedSeq(S) == IF S = {} THEN <<>>
                 ELSE LET m == CHOOSE x \in S : \A y \in S : x <= y IN <<m>> \o SortedSeq(S \ {m})
 
 StrictlyIncreasing(s) == \A i \in 1..(Len(s) - 1) : s[i] < s[i + 1]
+Distinct(s) == \A i, j \in 1..Len(s) : i # j => s[i] # s[j]
 
 RECURSIVE StripTrailingZeros(_)
 StripTrailingZeros(s) == IF s # <<>> /\ s[Len(s)] = 0 THEN StripTrailingZeros(Sub(s, 1, Len(s) - 1)) ELSE s
@@ -335,7 +337,7 @@ EncKind(k, v) ==
     [] k = "u32z"    -> IF v = <<0, 0, 0, 0>> THEN <<>> ELSE v
     [] k = "u32e"    -> v
     [] k = "u16opt"  -> IF v = <<>> THEN <<>> ELSE U16(v[1])
-    [] k = "u16list" -> Concat([i \in 1..Len(v) |-> U16(v[i])])
+    [] k = "u16list" -> LET s == SortedSeq(Range(v)) IN Concat([i \in 1..Len(s) |-> U16(s[i])])   \* increasing on the wire
     [] k \in {"alist", "aaaalist"} -> Concat(v)
 
 GatewaySel(e, f) == f[e.of] % e.mod
@@ -372,13 +374,36 @@ WithExtRcode(rr, rcode) == IF IsOpt(rr) THEN [rr EXCEPT !.ttl = << rcode \div 16
 (* only when there is an OPT record to carry the upper 8.                       *)
 Packable(m) == m.hdr.rcode \in 0..4095 /\ (m.hdr.rcode > 15 => HasOpt(m))
 
+(* Sets that travel in one canonical order.  Three lists of the abstract message *)
+(* (and of the Go API) denote SETS: the types of a type bitmap, the SvcParams of *)
+(* a SVCB record, the keys of its `mandatory' parameter.  Whatever order the     *)
+(* value lists them in, the wire carries them in increasing order (RFC 4034      *)
+(* s.4.1.2, RFC 9460 s.2.2 and s.8), and that is the order a decoder recovers.   *)
+NormSub(es, f) == [n \in DOMAIN f |->
+                     IF \E i \in 1..Len(es) : es[i].n = n /\ es[i].k = "u16list" THEN SortedSeq(Range(f[n])) ELSE f[n]]
+NormParams(v)  == LET s == SortParams(v) IN
+                  [i \in 1..Len(s) |-> [key |-> s[i].key, f |-> NormSub(SvcbLayoutOf(s[i].key), s[i].f)]]
+
 \* what a decoder recovers: OPT's EXTENDED-RCODE octet is determined by the RCODE,
-\* SvcParams come back in key order
+\* SvcParams, mandatory keys and bitmap types come back in increasing order
 NormRR(rr) ==
   IF rr.nodata THEN rr
-  ELSE LET es == FieldsOf(rr.type) IN
-       [rr EXCEPT !.f = [n \in DOMAIN rr.f |->
-            IF \E i \in 1..Len(es) : es[i].n = n /\ es[i].k = "svcb" THEN SortParams(rr.f[n]) ELSE rr.f[n]]]
+  ELSE LET es == FieldsOf(rr.type)
+           kindOf(n) == IF \E i \in 1..Len(es) : es[i].n = n THEN es[CHOOSE i \in 1..Len(es) : es[i].n = n].k ELSE "?"
+       IN [rr EXCEPT !.f = [n \in DOMAIN rr.f |->
+            CASE kindOf(n) = "svcb"   -> NormParams(rr.f[n])
+              [] kindOf(n) = "bitmap" -> SortedSeq(Range(rr.f[n]))
+              [] OTHER -> rr.f[n]]]
+
+(* AMBIG: a type bitmap listed out of order denotes the same set, so packing it  *)
+(* must either give the one encoding of that set or be refused (the library      *)
+(* documents "nsec bits out of order"); it must never give other octets.         *)
+UnorderedBitmap(rr) ==
+  ~rr.nodata /\ \E i \in 1..Len(FieldsOf(rr.type)) :
+     LET e == FieldsOf(rr.type)[i] IN e.k = "bitmap" /\ e.n \in DOMAIN rr.f /\ ~StrictlyIncreasing(rr.f[e.n])
+MayRefuse(m) == \/ \E i \in 1..Len(m.an) : UnorderedBitmap(m.an[i])
+                \/ \E i \in 1..Len(m.ns) : UnorderedBitmap(m.ns[i])
+                \/ \E i \in 1..Len(m.ar) : UnorderedBitmap(m.ar[i])
 NormSec(s) == [i \in 1..Len(s) |-> NormRR(s[i])]
 NormMsg(m) == [m EXCEPT !.an = NormSec(m.an), !.ns = NormSec(m.ns),
                         !.ar = [i \in 1..Len(m.ar) |-> WithExtRcode(NormRR(m.ar[i]), m.hdr.rcode)]]
@@ -469,7 +494,7 @@ WFKind(k, v) ==
     [] k = "ostr"    -> Len(v) <= 1 /\ \A i \in 1..Len(v) : WFStr(v[i])
     [] k = "lstrs"   -> \A i \in 1..Len(v) : WFStr(v[i]) /\ Len(v[i]) >= 1
     [] k = "names"   -> \A i \in 1..Len(v) : WFName(v[i])
-    [] k = "bitmap"  -> StrictlyIncreasing(v) /\ \A i \in 1..Len(v) : IsU16(v[i])
+    [] k = "bitmap"  -> Distinct(v) /\ \A i \in 1..Len(v) : IsU16(v[i])                 \* a set, in any order
     [] k = "bitmap0" -> StrictlyIncreasing(v) /\ \A i \in 1..Len(v) : v[i] \in 1..127
     [] k = "apl"     -> \A i \in 1..Len(v) : WFAplItem(v[i])
     [] k = "opts"    -> \A i \in 1..Len(v) : /\ DOMAIN v[i] = {"code", "f"} /\ IsU16(v[i].code)
@@ -480,7 +505,7 @@ WFKind(k, v) ==
     [] k = "u32z"    -> IsOct(v, 4)
     [] k = "u32e"    -> v = <<>> \/ IsOct(v, 4)
     [] k = "u16opt"  -> v = <<>> \/ (Len(v) = 1 /\ IsU16(v[1]))
-    [] k = "u16list" -> StrictlyIncreasing(v) /\ \A i \in 1..Len(v) : IsU16(v[i])
+    [] k = "u16list" -> Distinct(v) /\ \A i \in 1..Len(v) : IsU16(v[i])                 \* a set, in any order
     [] k = "alist"   -> Len(v) >= 1 /\ \A i \in 1..Len(v) : IsOct(v[i], 4)
     [] k = "aaaalist" -> Len(v) >= 1 /\ \A i \in 1..Len(v) : IsOct(v[i], 16)
 
